@@ -290,8 +290,10 @@ class Impl:
             if isinstance(t, dict) and isinstance(t.get(key), list):
                 names |= {x for x in t[key] if isinstance(x, str)}
         names = sorted(names)
+        import warnings
         try:
-            with self.patched():
+            with self.patched(), warnings.catch_warnings():
+                warnings.simplefilter("ignore")      # numpy: invalid value in reduce (inf - inf probes)
                 cfg = self.pio.parse_config(path)
         except BaseException as e:  # noqa: BLE001
             for cls, nm in ((self.exc.ConfigError, "ConfigError"), (TypeError, "TypeError"), (ValueError, "ValueError"),
@@ -687,8 +689,10 @@ def oracle_config(impl, path, case):
     tree = tomllib.load(open(path, "rb"))
     expect = case["expect"]
     fails = []
+    import warnings
     try:
-        with impl.patched():
+        with impl.patched(), warnings.catch_warnings():
+            warnings.simplefilter("ignore")
             cfg = impl.pio.parse_config(path)
     except exc.ConfigError:
         if expect in ("valid",):
